@@ -279,6 +279,61 @@ func generate(r *lib.Run) []string {
 		g.family(mode, nil, d, d, false)
 		g.family(mode, []string{"d/y", "d/x"}, d, d, false)
 	}
+	// output names that share a string prefix without being inside one another, directory outputs mixed with file outputs and
+	// with outputs in sub-directories; retrieved into a clean directory and over stale, LONGER outputs of an earlier build
+	prefixTrees := []struct {
+		tree []entry
+		outs []string
+	}{
+		{[]entry{{"d", 'd', ""}, {"d/x", 'f', "x1"}, {"d.txt", 'f', "new"}}, []string{"d", "d.txt"}},
+		{[]entry{{"gen", 'd', ""}, {"gen/a", 'f', "a"}, {"gen_hdrs", 'd', ""}, {"gen_hdrs/x.h", 'f', "h"}}, []string{"gen", "gen_hdrs/x.h"}},
+		{[]entry{{"report", 'd', ""}, {"report/r", 'x', "r"}, {"report.txt", 'f', "t"}}, []string{"report", "report.txt"}},
+		{[]entry{{"d", 'd', ""}, {"d/e", 'd', ""}, {"d/e/z", 'f', "z"}, {"d2", 'd', ""}, {"d2/x", 'f', "2"}, {"dx", 'f', "dx"}}, []string{"d", "d2/x", "dx"}},
+		{[]entry{{"d", 'd', ""}, {"d2", 'd', ""}, {"d2/y", 'l', "x"}, {"d=", 'f', "eq"}}, []string{"d", "d2", "d="}},
+		{[]entry{{"sub", 'd', ""}, {"sub/out.txt", 'f', "out"}}, []string{"sub/out.txt"}},
+		{[]entry{{"sub", 'd', ""}, {"sub/deep", 'd', ""}, {"sub/deep/o", 'x', "o"}, {"top", 'f', "t"}}, []string{"sub/deep/o", "top"}},
+		{[]entry{{"a", 'f', "hi"}, {"ab", 'f', "hello"}, {"abc", 'd', ""}, {"abc/k", 'f', "k"}}, []string{"a", "ab", "abc"}},
+	}
+	for _, pt := range prefixTrees {
+		for _, mode := range []string{"u", "c"} {
+			pre := mode + " " + hexList(pt.outs) + " S/-/" + showTree(pt.tree) + " "
+			g.add("prefix-names-clean", pre+"R")
+			// stale: every file longer, every symlink elsewhere, an extra file in every directory
+			var stale []entry
+			for _, e := range pt.tree {
+				switch e.Kind {
+				case 'f', 'x':
+					stale = append(stale, entry{e.Path, 'f', e.Data + "-STALE-TAIL-OF-AN-OLDER-BUILD"})
+				case 'l':
+					stale = append(stale, entry{e.Path, 'l', "elsewhere"})
+				default:
+					stale = append(stale, e, entry{e.Path + "/~old", 'f', "old"})
+				}
+			}
+			sortWalk(stale)
+			g.add("prefix-names-over-stale", pre+"R/"+showTree(stale))
+			// stale files only where the outputs themselves are (nothing else there: parents must be created)
+			g.add("prefix-names-over-stale", pre+"R/"+showTree(restrict(stale, pt.outs)))
+			// kinds swapped at the top level: a stale file where a directory comes, and the other way round
+			var swapped []entry
+			for _, e := range pt.tree {
+				isOut := false
+				for _, o := range pt.outs {
+					isOut = isOut || o == e.Path
+				}
+				if isOut && !strings.Contains(e.Path, "/") { // only the outputs themselves: a stale FILE in place of a parent directory blocks the restore (a miss)
+					if e.Kind == 'd' {
+						swapped = append(swapped, entry{e.Path, 'f', "was a file"})
+					} else {
+						swapped = append(swapped, entry{e.Path, 'd', ""}, entry{e.Path + "/inner", 'f', "was a dir"})
+					}
+				}
+			}
+			sortWalk(swapped)
+			g.add("prefix-names-over-stale", pre+"R/"+showTree(swapped))
+			g.add("prefix-names-over-stale", pre+"R/"+showTree(stale)+" R S/-/"+showTree(pt.tree)+" R/"+showTree(stale))
+		}
+	}
 	// random larger trees with adversarial names
 	for i := 0; i < r.N(12, 60); i++ {
 		t1 := randomTree(r.Rng)
@@ -290,11 +345,14 @@ func generate(r *lib.Run) []string {
 		if r.Rng.Chance(20) && len(outs) > 1 {
 			lib.Shuffle(r.Rng, outs)
 		}
-		g.family(lib.Pick(r.Rng, []string{"u", "c"}), outs, t0, t1, false)
+		mode := lib.Pick(r.Rng, []string{"u", "c"})
+		g.family(mode, outs, t0, t1, false)
+		// the other random tree as stale outputs of an earlier build
+		g.add("random-over-stale", mode+" "+hexList(outs)+" S/-/"+showTree(t1)+" R/"+showTree(randomTree(r.Rng)))
 		r.Count("gen:random-tree")
 	}
 	// malformed lines
-	for _, l := range []string{"", "u", "z 61 R", "u 6 R", "u 61 Q", "u 61 S/x/-", "u 61 S/-/61:q:-", "u 2f61 R", "c 61 S/-/61:d:6869", "u 61 S/1.x/-", "u 61 S/-/61:f:6869 D/50 R", "c 61 D/76 R", "c 61 D/x R"} {
+	for _, l := range []string{"", "u", "z 61 R", "u 6 R", "u 61 Q", "u 61 S/x/-", "u 61 S/-/61:q:-", "u 2f61 R", "c 61 S/-/61:d:6869", "u 61 S/1.x/-", "u 61 R/61:q:-", "u 61 R/", "u 61 S/-/61:f:6869 D/50 R", "c 61 D/76 R", "c 61 D/x R"} {
 		g.add("malformed", l)
 	}
 	return g.lines
